@@ -94,8 +94,11 @@ class Ctx:
             'violations': len(self.violations),
             'notes': self.notes,
         }
-        os.makedirs(os.path.join(VERIF, 'evidence'), exist_ok=True)
-        with open(os.path.join(VERIF, 'evidence', self.pid + '.json'), 'w') as f:
+        # evidence describes runs against /repo itself; a run against another tree (QBEE_REPO=<scratch copy with a
+        # seeded change>) must not overwrite it
+        evdir = os.path.join(VERIF, 'evidence') if os.path.realpath(REPO) == '/repo' else os.path.join(VERIF, 'replays', '_other_tree')
+        os.makedirs(evdir, exist_ok=True)
+        with open(os.path.join(evdir, self.pid + '.json'), 'w') as f:
             json.dump(ev, f, indent=1, sort_keys=True, default=str)
             f.write('\n')
         for l in out_lines:
